@@ -18,6 +18,7 @@ import (
 	"runtime/debug"
 	"runtime/pprof"
 	"sort"
+	"strings"
 	"sync"
 	"sync/atomic"
 	"time"
@@ -284,6 +285,7 @@ type Subject struct {
 	cov     Cov
 	vacated map[[2]int]bool
 	lastNB  int
+	opCache map[opKey]starlark.Value // exhaustive mode only
 }
 
 type violation struct{ msg string }
@@ -341,14 +343,56 @@ func (s *Subject) call(name string, args ...starlark.Value) (starlark.Value, err
 	return starlark.Call(s.th, starFns[name], starlark.Tuple(args), nil)
 }
 
+// operand collections of the exhaustive alphabet are fixed slices: build them once per worker
+// (they are only read by the operations under test)
+func (s *Subject) cached(ks []int, isSet bool) starlark.Value {
+	if s.opCache == nil || len(ks) == 0 {
+		return nil
+	}
+	return s.opCache[opKey{&ks[0], len(ks), isSet}]
+}
+func (s *Subject) remember(ks []int, isSet bool, v starlark.Value) {
+	if s.opCache == nil || len(ks) == 0 {
+		return
+	}
+	for _, f := range [][]int{exhUni, exhInt, exhDif, exhSym, exhIntOp, exhSymOp, probeAll, probeSome} {
+		if &f[0] == &ks[0] && len(f) == len(ks) {
+			s.opCache[opKey{&ks[0], len(ks), isSet}] = v
+			return
+		}
+	}
+}
+
+type opKey struct {
+	p     *int
+	n     int
+	isSet bool
+}
+
 func (s *Subject) keyList(ks []int) *starlark.List {
+	if v := s.cached(ks, false); v != nil {
+		return v.(*starlark.List)
+	}
+	l := s.keyList0(ks)
+	s.remember(ks, false, l)
+	return l
+}
+func (s *Subject) keySet(ks []int) *starlark.Set {
+	if v := s.cached(ks, true); v != nil {
+		return v.(*starlark.Set)
+	}
+	l := s.keySet0(ks)
+	s.remember(ks, true, l)
+	return l
+}
+func (s *Subject) keyList0(ks []int) *starlark.List {
 	el := make([]starlark.Value, len(ks))
 	for i, k := range ks {
 		el[i] = s.key(k)
 	}
 	return starlark.NewList(el)
 }
-func (s *Subject) keySet(ks []int) *starlark.Set {
+func (s *Subject) keySet0(ks []int) *starlark.Set {
 	r := new(starlark.Set)
 	for _, k := range ks {
 		r.Insert(s.key(k))
@@ -963,7 +1007,7 @@ func (s *Subject) checkSubsetProbes(l AL) string {
 	for _, p := range subsetProbes(l) {
 		_, want := l.step(p)
 		if got := s.apply(p); got != want {
-			return fmt.Sprintf("%s(%v) form %d = %v, the association list says %v", p.Op, p.Ks, p.Form, got.Found, want.Found)
+			return fmt.Sprintf("%s: %s(%v) form %d = %v, the association list says %v", p.Op, p.Op, p.Ks, p.Form, got.Found, want.Found)
 		}
 	}
 	return ""
@@ -1026,7 +1070,7 @@ func runHistory(h History, checkFrom int, probe []int, cov *Cov) (mm *Mismatch) 
 		}
 		if probe != nil {
 			if msg := s.checkSubsetProbes(l); msg != "" {
-				return &Mismatch{Kind: "mismatch", Class: o.Op + ":subset-query", History: h, At: i, Got: got, Want: Obs{wo, len(l), alItems(l)}, Msg: msg}
+				return &Mismatch{Kind: "mismatch", Class: msg[:strings.Index(msg, ":")] + ":out", History: h, At: i, Got: got, Want: Obs{wo, len(l), alItems(l)}, Msg: "queried after the last operation: " + msg}
 			}
 		}
 	}
@@ -1224,6 +1268,7 @@ func exhaustive(tkind, route, hname string, L, workers int, core bool) {
 			// (the same memory state as new(Dict); saves the allocator most of the run time)
 			dict0, set0 := new(starlark.Dict), new(starlark.Set)
 			subj := &Subject{tkind: tkind, route: route, keys: keys, th: th}
+			opCache := map[opKey]starlark.Value{}
 			seq := make([]int, 0, L)
 			ops := make([]Op, 0, len(prefix)+L)
 			// oracle state after the prefix and after each chosen symbol
@@ -1261,7 +1306,7 @@ func exhaustive(tkind, route, hname string, L, workers int, core bool) {
 						}
 					}()
 					s := subj
-					*s = Subject{tkind: tkind, route: route, keys: keys, th: th}
+					*s = Subject{tkind: tkind, route: route, keys: keys, th: th, opCache: opCache}
 					if tkind == "dict" {
 						*dict0 = starlark.Dict{}
 						s.x = dict0
@@ -1310,7 +1355,7 @@ func exhaustive(tkind, route, hname string, L, workers int, core bool) {
 							return
 						}
 					}
-					if s.checkSubsetProbes(want) != "" {
+					if st.histories%4 == 0 && s.checkSubsetProbes(want) != "" {
 						bad = true
 					}
 				}()
@@ -1922,6 +1967,242 @@ func emitObserved(h History, id int) {
 	hx.Emit(out)
 }
 
+// ---------------------------------------------------------------- whole programs with built-in key types
+//
+// Histories written as Starlark SOURCE over keys of the built-in types (short and long
+// strings, small and big ints, tuples), executed by the interpreter end to end; the
+// items are recorded after every statement and compared with the association list.
+// This is where keyword arguments (d.update(**kw), dict(pairs, **kw)) are exercised.
+
+var progKeys = []string{`"a"`, `"b"`, `"c"`, `"key_number_four_is_long"`, `"another_rather_long_key"`, `"e"`,
+	`0`, `1`, `-1`, `1 << 70`, `(1, "x")`, `(1, 2, 3)`, `()`, `""`, `True`, `None`}
+
+// kwargs need identifier-like string keys
+var progKwKeys = []int{0, 1, 2, 5}
+var progKwNames = map[int]string{0: "a", 1: "b", 2: "c", 5: "e"}
+
+func programs(n, nops int, seed uint64) {
+	root := hx.NewRand(seed)
+	mism := 0
+	seen := map[string]bool{}
+	stmts := 0
+	for pi := 0; pi < n; pi++ {
+		r := root.Split()
+		tkind := []string{"dict", "set"}[pi%2]
+		var src []string
+		var ops []Op
+		var l AL
+		var wants []AL
+		if tkind == "dict" {
+			src = append(src, "x = {}")
+		} else {
+			src = append(src, "x = set()")
+		}
+		pairsSrc := func(ps [][2]int) string {
+			t := "["
+			for i, p := range ps {
+				if i > 0 {
+					t += ", "
+				}
+				t += fmt.Sprintf("(%s, %d)", progKeys[p[0]], p[1])
+			}
+			return t + "]"
+		}
+		keysSrc := func(ks []int) string {
+			t := "["
+			for i, k := range ks {
+				if i > 0 {
+					t += ", "
+				}
+				t += progKeys[k]
+			}
+			return t + "]"
+		}
+		for i := 0; i < nops; i++ {
+			k := r.Intn(len(progKeys))
+			v := i + 1
+			var o Op
+			var line string
+			rc := func() []int {
+				ks := make([]int, 1+r.Intn(4))
+				for j := range ks {
+					ks[j] = r.Intn(len(progKeys))
+				}
+				return ks
+			}
+			if tkind == "dict" {
+				switch r.Intn(10) {
+				case 0, 1, 2:
+					o, line = Op{Op: "insert", K: k, V: v}, fmt.Sprintf("x[%s] = %d", progKeys[k], v)
+				case 3:
+					o, line = Op{Op: "delete", K: k}, fmt.Sprintf("x.pop(%s, None)", progKeys[k])
+				case 4:
+					o, line = Op{Op: "setdefault", K: k, V: v}, fmt.Sprintf("x.setdefault(%s, %d)", progKeys[k], v)
+				case 5:
+					o, line = Op{Op: "popfirst"}, "x.popitem() if x else None"
+				case 6: // update with pairs and keyword arguments: pairs first, then kwargs in the order written
+					var ps [][2]int
+					for _, kk := range rc() {
+						ps = append(ps, [2]int{kk, v})
+					}
+					kw := ""
+					all := append([][2]int{}, ps...)
+					used := map[int]bool{}
+					for j := 0; j < r.Intn(4); j++ {
+						kk := progKwKeys[r.Intn(len(progKwKeys))]
+						if used[kk] {
+							continue
+						}
+						used[kk] = true
+						kw += fmt.Sprintf(", %s = %d", progKwNames[kk], 1000+v+j)
+						all = append(all, [2]int{kk, 1000 + v + j})
+					}
+					o, line = Op{Op: "update", L: all}, fmt.Sprintf("x.update(%s%s)", pairsSrc(ps), kw)
+				case 7: // x = dict(x, **kw) / dict(pairs) | x
+					var ps [][2]int
+					for _, kk := range rc() {
+						ps = append(ps, [2]int{kk, v})
+					}
+					o, line = Op{Op: "dictunion", L: ps}, fmt.Sprintf("x = x | dict(%s)", pairsSrc(ps))
+				case 8:
+					var ps [][2]int
+					for _, kk := range dedupInts(rc()) {
+						ps = append(ps, [2]int{kk, v})
+					}
+					o, line = Op{Op: "update", L: ps}, fmt.Sprintf("x |= dict(%s)", pairsSrc(ps))
+				default:
+					if r.Intn(4) == 0 {
+						o, line = Op{Op: "clear"}, "x.clear()"
+					} else {
+						o, line = Op{Op: "insert", K: k, V: v}, fmt.Sprintf("x[%s] = %d", progKeys[k], v)
+					}
+				}
+			} else {
+				ks := rc()
+				switch r.Intn(11) {
+				case 0, 1, 2:
+					o, line = Op{Op: "insert", K: k}, fmt.Sprintf("x.add(%s)", progKeys[k])
+				case 3:
+					o, line = Op{Op: "discard", K: k}, fmt.Sprintf("x.discard(%s)", progKeys[k])
+				case 4:
+					o, line = Op{Op: "popfirst"}, "x.pop() if x else None"
+				case 5:
+					o, line = Op{Op: "setunion", Ks: ks}, fmt.Sprintf("x = x.union(%s)", keysSrc(ks))
+				case 6:
+					o, line = Op{Op: "setinter", Ks: ks}, fmt.Sprintf("x = x & set(%s)", keysSrc(ks))
+				case 7:
+					o, line = Op{Op: "setdiff", Ks: ks}, fmt.Sprintf("x = x - set(%s)", keysSrc(ks))
+				case 8:
+					o, line = Op{Op: "setsymdiff", Ks: ks}, fmt.Sprintf("x = x.symmetric_difference(%s)", keysSrc(ks))
+				case 9:
+					var ps [][2]int
+					for _, kk := range ks {
+						ps = append(ps, [2]int{kk, 0})
+					}
+					o, line = Op{Op: "update", L: ps}, fmt.Sprintf("x |= set(%s)", keysSrc(ks))
+				default:
+					o, line = Op{Op: "setsymdiff", Ks: dedupInts(ks)}, fmt.Sprintf("x = x ^ set(%s)", keysSrc(ks))
+				}
+			}
+			if tkind == "set" {
+				o.V = 0
+				for j := range o.L {
+					o.L[j][1] = 0
+				}
+			}
+			l, _ = l.step(o)
+			wants = append(wants, append(AL(nil), l...))
+			ops = append(ops, o)
+			if tkind == "dict" {
+				src = append(src, line, "out.append((len(x), x.items()))")
+			} else {
+				src = append(src, line, "out.append((len(x), [(k, 0) for k in x]))")
+			}
+		}
+		stmts += nops
+		// bool True == 1 and hash equal: keep both out of one program would hide nothing; the oracle
+		// treats them as distinct ids, so drop programs that use both True and 1.
+		usesTrue, usesOne := false, false
+		for _, o := range ops {
+			for _, kk := range append(append([]int{o.K}, o.Ks...), func() []int {
+				var t []int
+				for _, p := range o.L {
+					t = append(t, p[0])
+				}
+				return t
+			}()...) {
+				if progKeys[kk] == "True" {
+					usesTrue = true
+				}
+				if progKeys[kk] == "1" {
+					usesOne = true
+				}
+			}
+		}
+		if usesTrue && usesOne {
+			continue
+		}
+		program := ""
+		for _, ln := range src {
+			program += ln + "\n"
+		}
+		out := starlark.NewList(nil)
+		th := &starlark.Thread{Name: "c12prog"}
+		_, err := starlark.ExecFileOptions(&syntax.FileOptions{Set: true, GlobalReassign: true, TopLevelControl: true}, th, "prog.star", program,
+			starlark.StringDict{"out": out})
+		class, msg, at := "", "", -1
+		if err != nil {
+			class, msg = "prog:error", err.Error()
+		} else {
+			// evaluate the key expressions once to identify keys in the output
+			keyVals := make([]starlark.Value, len(progKeys))
+			for i, ks := range progKeys {
+				kv, err := starlark.EvalOptions(&syntax.FileOptions{}, th, "k", ks, nil)
+				if err != nil {
+					panic(err)
+				}
+				keyVals[i] = kv
+			}
+			idOf := func(v starlark.Value) int {
+				for i, kv := range keyVals {
+					if eq, _ := starlark.Equal(v, kv); eq && v.Type() == kv.Type() {
+						return i
+					}
+				}
+				return -1
+			}
+			for i := 0; i < out.Len() && class == ""; i++ {
+				t := out.Index(i).(starlark.Tuple)
+				n, _ := starlark.AsInt32(t[0])
+				items := t[1].(*starlark.List)
+				got := make([][2]int, items.Len())
+				for j := range got {
+					p := items.Index(j).(starlark.Tuple)
+					got[j] = [2]int{idOf(p[0]), val(p[1])}
+				}
+				if n != len(wants[i]) || !sameItems(got, wants[i]) {
+					class = "prog:" + classify(ops[i], Obs{Out{}, n, got}, Out{}, wants[i])
+					msg = fmt.Sprintf("statement %d: got %v want %v", i, got, alItems(wants[i]))
+					at = i
+				}
+			}
+		}
+		if class != "" {
+			mism++
+			if !seen[class] {
+				seen[class] = true
+				cut := len(src)
+				if at >= 0 {
+					cut = 1 + 2*(at+1)
+				}
+				hx.Emit(map[string]any{"kind": "mismatch", "mode": "prog", "class": class, "tkind": tkind, "route": "program", "hashes": [][2]int{}, "init": -1,
+					"ops": ops[:max(at+1, 0)], "at": at, "msg": msg, "program": src[:cut], "keys": progKeys})
+			}
+		}
+	}
+	hx.Emit(map[string]any{"kind": "prog", "histories": n, "op_executions": stmts, "mismatches": mism})
+}
+
 // ---------------------------------------------------------------- main
 
 func main() {
@@ -1958,6 +2239,8 @@ func main() {
 		random(*kind, *route, *n, *nops, *seed, *workers)
 	case "sample":
 		sample(*n, *maxops, *seed)
+	case "programs":
+		programs(*n, *maxops, *seed)
 	case "replay":
 		var h History
 		if err := json.NewDecoder(os.Stdin).Decode(&h); err != nil {
